@@ -25,6 +25,7 @@ func checkC03(c *fw.Ctx) {
 	checkBuildOrder(c)
 	checkHeadered(c)
 	checkV12Auth(c)
+	checkDerivedTypePreserved(c)
 }
 
 func checkReference(c *fw.Ctx) {
@@ -516,4 +517,82 @@ func checkV12Auth(c *fw.Ctx) {
 		}
 		c.Check(okSkip, rule, "AddAuthEvents omits exactly \"$\"+room_id[1:] for domainless room ids", c.P.Pos(fn.Pos()), "", "no comparison of a reference with \"$\"+RoomID[1:] under DomainlessRoomIDs()")
 	}
+}
+
+// checkDerivedTypePreserved: an event type that embeds another event type and overrides some of
+// its accessors (eventV3 over eventV2: RoomID, AuthEventIDs) must also override every method
+// of the embedded type that returns a PDU: the embedded type's method builds its result from
+// its own type, so the promoted method hands back an event that has lost the overrides (a v12
+// event becomes an eventV2: RoomID() of a create event panics, AuthEventIDs() drops the create
+// event).
+func checkDerivedTypePreserved(c *fw.Ctx) {
+	rule := "9 derived-type"
+	pkg := c.P.Pkg("")
+	pduObj := pkg.Types.Scope().Lookup("PDU")
+	if pduObj == nil {
+		c.Undecided(rule, "PDU interface", "not found")
+		return
+	}
+	pdu, _ := pduObj.Type().Underlying().(*types.Interface)
+	n := 0
+	sc := pkg.Types.Scope()
+	for _, name := range sc.Names() {
+		tn, ok := sc.Lookup(name).(*types.TypeName)
+		if !ok {
+			continue
+		}
+		st, ok := tn.Type().Underlying().(*types.Struct)
+		if !ok {
+			continue
+		}
+		ptr := types.NewPointer(tn.Type())
+		if pdu == nil || !types.Implements(ptr, pdu) {
+			continue
+		}
+		// embedded event types
+		for i := 0; i < st.NumFields(); i++ {
+			f := st.Field(i)
+			if !f.Embedded() {
+				continue
+			}
+			ept := types.NewPointer(f.Type())
+			if !types.Implements(ept, pdu) {
+				continue
+			}
+			// does the outer type override anything?
+			ms := types.NewMethodSet(ptr)
+			overrides := 0
+			for k := 0; k < ms.Len(); k++ {
+				if len(ms.At(k).Index()) == 1 {
+					overrides++
+				}
+			}
+			if overrides == 0 {
+				continue
+			}
+			for k := 0; k < ms.Len(); k++ {
+				sel := ms.At(k)
+				sig, _ := sel.Type().(*types.Signature)
+				if sig == nil {
+					continue
+				}
+				returnsPDU := false
+				for r := 0; r < sig.Results().Len(); r++ {
+					if types.Identical(sig.Results().At(r).Type(), pduObj.Type()) {
+						returnsPDU = true
+					}
+				}
+				if !returnsPDU || pdu == nil {
+					continue
+				}
+				if m, _, _ := types.LookupFieldOrMethod(pduObj.Type(), false, pkg.Types, sel.Obj().Name()); m == nil {
+					continue
+				}
+				n++
+				promoted := len(sel.Index()) > 1
+				c.Check(!promoted, rule, fmt.Sprintf("%s overrides %s.%s (which returns a PDU)", name, f.Name(), sel.Obj().Name()), c.P.Pos(tn.Pos()), "", fmt.Sprintf("%s.%s is promoted from the embedded %s: the PDU it returns is a %s, so the %s overrides (RoomID, AuthEventIDs, ...) are lost on the result", name, sel.Obj().Name(), f.Name(), f.Name(), name))
+			}
+		}
+	}
+	c.Min(rule+" PDU-returning methods of derived event types", n, 2)
 }
